@@ -174,7 +174,7 @@ func c17(r *mon.Run) {
 	}
 	wrappers := []func(string) string{
 		func(s string) string { return s },
-		func(s string) string { return "é😀 | " + s },
+		func(s string) string { return "é😀 | " + s }, func(s string) string { return "\ufeff" + s }, func(s string) string { return s + "\n" }, func(s string) string { return "\r\n" + s + "\r\n" },
 		func(s string) string { return s + " | é" },
 		func(s string) string { return "[" + s + "]" },
 		func(s string) string { return "a[?" + s + "]" },
